@@ -30,92 +30,93 @@ def run(chk):
     card = Tok('card')
     trumpS = f.member('Suit', 'H')
     n_block = 0
-    for leader in P.players:
-        for ln in (1, 2, 3, 4):
-            for tidx in ((-1, 0, 1, 2, 3) if ln == 4 else (-1,)):
-                for lidx in ((0, 1, 2, 3) if ln == 4 else (0,)):
-                    chk.evals()
-                    active = P.step(leader, 'next_player', ln - 1)
-                    st = {'card': card, 'leader': leader, 'active': active, 'trick_num': 5, 'trump': trumpS, 'len': ln,
-                          'trump_idx': tidx, 'led_idx': lidx, 'other_idx': (lidx + 1) % 4}
-                    pe = P.evaluator(st)
-                    cons = [p for p in paths if P.consistent(p, pe)]
-                    if not cons:
-                        raise AnalysisError('C04.R1', q_pc, f'no path consistent with {ln} cards in the trick')
-                    for p in cons:
-                        if p.end[0] == 'raise':
-                            chk.require(False, 'C04.R1', w_pc, q_pc, f'play_card raises with {ln} cards: {p.describe()[-60:]}',
-                                        'play_card does not raise', f'play_card raises with {ln} cards in the trick: {p.describe()[-80:]}')
-                            continue
-                        appends = [e for e in p.events if e.kind == 'call' and ast.unparse(ast.parse(e.recv, mode="eval").body) == P.trick]
-                        good = len(appends) == 1 and appends[0].method == 'append' and len(appends[0].args) == 1 and \
-                            pe.eval(appends[0].args[0]) == card
-                        chk.require(good, 'C04.R3', w_pc, q_pc, 'trick list update: ' + '; '.join(e.text for e in appends),
-                                    'the card is appended once at the end of the current trick (order played)',
-                                    f'current-trick list is updated by {[e.text for e in appends]} (must be one append of the card)')
-                        used = [e for e in p.events if e.kind == 'call' and e.recv == 'self.used_cards']
-                        good = len(used) == 1 and used[0].method == 'add' and pe.eval(used[0].args[0]) == card
-                        chk.require(good, 'C04.R3', w_pc, q_pc, 'used cards: ' + '; '.join(e.text for e in used),
-                                    'the card is added once to the played cards', f'played-card set updated by {[e.text for e in used]}')
-                        rec = [e for e in p.events if e.kind == 'call' and e.method == 'record']
-                        taken = [e for e in p.events if e.kind in ('aug', 'store', 'assign') and e.target == 'self.taken_tricks']
-                        lp, ap, tn = P.post(p, 'self.leader', pe), P.post(p, 'self.active_player', pe), P.post(p, 'self.trick_num', pe)
-                        tc = p.env.get(P.trick)
-                        if ln < 4:
-                            good = not rec and not taken and lp == leader and tn == 5 and tc is None
-                            chk.require(good, 'C04.R1', w_pc, q_pc, f'mid-trick bookkeeping ({ln} cards)',
-                                        f'with {ln} cards nothing is recorded or credited and leader/trick number stay',
-                                        f'with {ln} cards in the trick: record={len(rec)}, credits={len(taken)}, leader {leader}->{lp}, trick 5->{tn}')
-                            want = CLOCKWISE[active.name]
-                            chk.require(getattr(ap, 'name', None) == want, 'C04.R1', w_pc, q_pc, f'turn after card {ln} by {active.name}',
-                                        f'after card {ln} by {active.name} the turn passes clockwise to {want}',
-                                        f'after card {ln} of a trick played by {active.name} the turn passes to {ap}, clockwise is {want}')
-                            continue
-                        n_block += 1
-                        off = tidx if tidx >= 0 else lidx
-                        winner = P.step(leader, 'next_player', off)
-                        # record: old leader, trick number, cards after this card
-                        good = len(rec) == 1 and len(rec[0].args) == 2
-                        why = f'{len(rec)} record calls'
-                        if good:
-                            r0 = rec[0]
-                            th = r0.args[1]
-                            tnum = pe.eval(r0.args[0])
-                            cc = repo.cls('TrickHistory', 'C04.R1')
-                            fields = [n for n in cc.order if n in cc.annots]
-                            got = {}
-                            if isinstance(th, ast.Call) and ast.unparse(th.func) == 'TrickHistory':
-                                got = dict(zip(fields, th.args))
-                                got.update({k.arg: k.value for k in th.keywords})
-                            lead_v = pe.eval(got['leader']) if 'leader' in got else NOVALUE
-                            cards_ok = 'cards' in got and ast.unparse(got['cards']) == f'tuple({P.trick})' and \
-                                p.events.index(appends[0]) < p.events.index(r0) if appends else False
-                            good = tnum == 5 and lead_v == leader and cards_ok
-                            why = f'record(trick {tnum}, leader {lead_v}, cards `{ast.unparse(got["cards"]) if "cards" in got else None}`)'
-                        chk.require(good, 'C04.R1', repo.where(P.mod, rec[0].node) if rec else w_pc, q_pc,
-                                    (rec[0].text if rec else 'no record') + f' [leader {leader.name}, winner offset {off}]',
-                                    'the completed trick is recorded with its number, its actual leader and the four cards in order',
-                                    f'trick led by {leader.name} (winner {winner.name}): {why}; expected trick 5, leader {leader.name}, '
-                                    f'tuple of the trick cards including this card', path=p.describe())
-                        chk.require(lp == winner, 'C04.R2', w_pc, q_pc,
-                                    f'next leader: leader {leader.name}, highest trump at {tidx}, highest of suit led at {lidx}',
-                                    f'trick led by {leader.name} with highest trump at {tidx} / highest led-suit card at {lidx} is won by {winner.name}',
-                                    f'trick led by {leader.name}, highest trump position {tidx}, highest card of the suit led at position {lidx}: '
-                                    f'next leader is {lp}, the winner is {winner.name}', path=p.describe())
-                        good = len(taken) == 1 and taken[0].kind == 'aug' and taken[0].op == 'Add' and pe.eval(taken[0].value) == 1 \
-                            and len(taken[0].keys) == 1
-                        side = pe.eval(taken[0].keys[0]) if good else NOVALUE
-                        good = good and getattr(side, 'name', None) == SIDE[winner.name]
-                        chk.require(good, 'C04.R1', repo.where(P.mod, taken[0].node) if taken else w_pc, q_pc,
-                                    (ast.unparse(taken[0].node) if taken else 'no credit') + f' [leader {leader.name}, winner offset {off}]',
-                                    f'exactly one trick is credited to the winner\'s side {SIDE[winner.name]}',
-                                    f'trick won by {winner.name}: credit goes to {side} ({len(taken)} update(s)); expected +1 for {SIDE[winner.name]}',
-                                    path=p.describe())
-                        chk.require(ap == winner and tn == 6, 'C04.R1', w_pc, q_pc, f'after trick: leader {leader.name} offset {off}',
-                                    'the winner is on turn and the trick number advances by one',
-                                    f'after the trick won by {winner.name}: active seat {ap}, trick number 5 -> {tn}')
-                        chk.require(tc is not None and ast.unparse(tc) in ('list()', '[]'), 'C04.R1', w_pc, q_pc, 'trick list reset',
-                                    'the current trick is emptied', f'current trick after completion is `{ast.unparse(tc) if tc is not None else "unchanged"}`')
+    for tn0 in (1, 7, 13):
+        for leader in P.players:
+            for ln in (1, 2, 3, 4):
+                for tidx in ((-1, 0, 1, 2, 3) if ln == 4 else (-1,)):
+                    for lidx in ((0, 1, 2, 3) if ln == 4 else (0,)):
+                        chk.evals()
+                        active = P.step(leader, 'next_player', ln - 1)
+                        st = {'card': card, 'leader': leader, 'active': active, 'trick_num': tn0, 'trump': trumpS, 'len': ln,
+                              'trump_idx': tidx, 'led_idx': lidx, 'other_idx': (lidx + 1) % 4}
+                        pe = P.evaluator(st)
+                        cons = [p for p in paths if P.consistent(p, pe)]
+                        if not cons:
+                            raise AnalysisError('C04.R1', q_pc, f'no path consistent with {ln} cards in the trick')
+                        for p in cons:
+                            if p.end[0] == 'raise':
+                                chk.require(False, 'C04.R1', w_pc, q_pc, f'play_card raises with {ln} cards: {p.describe()[-60:]}',
+                                            'play_card does not raise', f'play_card raises with {ln} cards in the trick: {p.describe()[-80:]}')
+                                continue
+                            appends = [e for e in p.events if e.kind == 'call' and ast.unparse(ast.parse(e.recv, mode="eval").body) == P.trick]
+                            good = len(appends) == 1 and appends[0].method == 'append' and len(appends[0].args) == 1 and \
+                                pe.eval(appends[0].args[0]) == card
+                            chk.require(good, 'C04.R3', w_pc, q_pc, 'trick list update: ' + '; '.join(e.text for e in appends),
+                                        'the card is appended once at the end of the current trick (order played)',
+                                        f'current-trick list is updated by {[e.text for e in appends]} (must be one append of the card)')
+                            used = [e for e in p.events if e.kind == 'call' and e.recv == 'self.used_cards']
+                            good = len(used) == 1 and used[0].method == 'add' and pe.eval(used[0].args[0]) == card
+                            chk.require(good, 'C04.R3', w_pc, q_pc, 'used cards: ' + '; '.join(e.text for e in used),
+                                        'the card is added once to the played cards', f'played-card set updated by {[e.text for e in used]}')
+                            rec = [e for e in p.events if e.kind == 'call' and e.method == 'record']
+                            taken = [e for e in p.events if e.kind in ('aug', 'store', 'assign') and e.target == 'self.taken_tricks']
+                            lp, ap, tn = P.post(p, 'self.leader', pe), P.post(p, 'self.active_player', pe), P.post(p, 'self.trick_num', pe)
+                            tc = p.env.get(P.trick)
+                            if ln < 4:
+                                good = not rec and not taken and lp == leader and tn == tn0 and tc is None
+                                chk.require(good, 'C04.R1', w_pc, q_pc, f'mid-trick bookkeeping ({ln} cards)',
+                                            f'with {ln} cards nothing is recorded or credited and leader/trick number stay',
+                                            f'with {ln} cards in the trick: record={len(rec)}, credits={len(taken)}, leader {leader}->{lp}, trick {tn0}->{tn}')
+                                want = CLOCKWISE[active.name]
+                                chk.require(getattr(ap, 'name', None) == want, 'C04.R1', w_pc, q_pc, f'turn after card {ln} by {active.name}',
+                                            f'after card {ln} by {active.name} the turn passes clockwise to {want}',
+                                            f'after card {ln} of a trick played by {active.name} the turn passes to {ap}, clockwise is {want}')
+                                continue
+                            n_block += 1
+                            off = tidx if tidx >= 0 else lidx
+                            winner = P.step(leader, 'next_player', off)
+                            # record: old leader, trick number, cards after this card
+                            good = len(rec) == 1 and len(rec[0].args) == 2
+                            why = f'{len(rec)} record calls'
+                            if good:
+                                r0 = rec[0]
+                                th = r0.args[1]
+                                tnum = pe.eval(r0.args[0])
+                                cc = repo.cls('TrickHistory', 'C04.R1')
+                                fields = [n for n in cc.order if n in cc.annots]
+                                got = {}
+                                if isinstance(th, ast.Call) and ast.unparse(th.func) == 'TrickHistory':
+                                    got = dict(zip(fields, th.args))
+                                    got.update({k.arg: k.value for k in th.keywords})
+                                lead_v = pe.eval(got['leader']) if 'leader' in got else NOVALUE
+                                cards_ok = 'cards' in got and ast.unparse(got['cards']) == f'tuple({P.trick})' and \
+                                    p.events.index(appends[0]) < p.events.index(r0) if appends else False
+                                good = tnum == tn0 and lead_v == leader and cards_ok
+                                why = f'record(trick {tnum}, leader {lead_v}, cards `{ast.unparse(got["cards"]) if "cards" in got else None}`)'
+                            chk.require(good, 'C04.R1', repo.where(P.mod, rec[0].node) if rec else w_pc, q_pc,
+                                        (rec[0].text if rec else 'no record') + f' [leader {leader.name}, winner offset {off}]',
+                                        'the completed trick is recorded with its number, its actual leader and the four cards in order',
+                                        f'trick led by {leader.name} (winner {winner.name}): {why}; expected trick {tn0}, leader {leader.name}, '
+                                        f'tuple of the trick cards including this card', path=p.describe())
+                            chk.require(lp == winner, 'C04.R2', w_pc, q_pc,
+                                        f'next leader: leader {leader.name}, highest trump at {tidx}, highest of suit led at {lidx}',
+                                        f'trick led by {leader.name} with highest trump at {tidx} / highest led-suit card at {lidx} is won by {winner.name}',
+                                        f'trick {tn0} led by {leader.name}, highest trump position {tidx}, highest card of the suit led at position {lidx}: '
+                                        f'next leader is {lp}, the winner is {winner.name}', path=p.describe())
+                            good = len(taken) == 1 and taken[0].kind == 'aug' and taken[0].op == 'Add' and pe.eval(taken[0].value) == 1 \
+                                and len(taken[0].keys) == 1
+                            side = pe.eval(taken[0].keys[0]) if good else NOVALUE
+                            good = good and getattr(side, 'name', None) == SIDE[winner.name]
+                            chk.require(good, 'C04.R1', repo.where(P.mod, taken[0].node) if taken else w_pc, q_pc,
+                                        (ast.unparse(taken[0].node) if taken else 'no credit') + f' [leader {leader.name}, winner offset {off}]',
+                                        f'exactly one trick is credited to the winner\'s side {SIDE[winner.name]}',
+                                        f'trick won by {winner.name}: credit goes to {side} ({len(taken)} update(s)); expected +1 for {SIDE[winner.name]}',
+                                        path=p.describe())
+                            chk.require(ap == winner and tn == tn0 + 1, 'C04.R1', w_pc, q_pc, f'after trick: leader {leader.name} offset {off}',
+                                        'the winner is on turn and the trick number advances by one',
+                                        f'after the trick won by {winner.name}: active seat {ap}, trick number {tn0} -> {tn}')
+                            chk.require(tc is not None and ast.unparse(tc) in ('list()', '[]'), 'C04.R1', w_pc, q_pc, 'trick list reset',
+                                        'the current trick is emptied', f'current trick after completion is `{ast.unparse(tc) if tc is not None else "unchanged"}`')
     chk.floor('C04.R1', 'fourth-card blocks evaluated', n_block, 80)
 
     # ---- calc_highest: comparison-only use, then fold on all membership patterns x rank orders ----------------
